@@ -438,6 +438,24 @@ Proof.
   apply loc_bind; [apply H; left; reflexivity|]. intros _. apply IH. intros z Hz. apply H. right. exact Hz.
 Qed.
 
+(* the quiet rounds of the import pass drop their errors *)
+Lemma try_loc S m : loc S (try_ m).
+Proof. intros st. unfold try_. destruct (m st) as [[u s]| | |]; exact I. Qed.
+
+Lemma quiet_round_loc S ast : loc S (quiet_round ast).
+Proof.
+  apply for_each_loc. intros m _. apply for_each_loc. intros s _. destruct s; try apply loc_ret.
+  - apply try_loc.
+  - apply for_each_loc. intros it _. apply try_loc.
+Qed.
+
+Lemma import_rounds_loc S n ast : loc S (import_rounds n ast).
+Proof.
+  induction n as [|n IH]; intros st; cbn [import_rounds]; [exact I|].
+  pose proof (quiet_round_loc S ast st) as Hq. destruct (quiet_round ast st) as [[u s]| | |]; auto.
+  destruct (Nat.eqb (names_count s) (names_count st)); [exact I|apply IH].
+Qed.
+
 Lemma module_sites ast m s : In m ast -> In s (m_stmts m) ->
   incl (sites_pass s) (err_sites ast) /\ incl (sites_s s) (err_sites ast).
 Proof.
@@ -458,7 +476,9 @@ Proof.
     apply loc_bind; [|intros t st; exact I].
     apply add_definitions_loc. intros s Hs. apply incl_tl. apply (module_sites ast m s Hm Hs). }
   intros _. apply loc_bind.
-  { apply for_each_loc. intros m Hm. apply rgv_loc. intros s Hs. apply incl_tl. apply (module_sites ast m s Hm Hs). }
+  { unfold import_pass. apply loc_bind.
+    { destruct (imports_fixpoint fl); [apply import_rounds_loc|apply loc_ret]. }
+    intros _. apply for_each_loc. intros m Hm. apply rgv_loc. intros s Hs. apply incl_tl. apply (module_sites ast m s Hm Hs). }
   intros _. apply loc_bind.
   { apply loc_block. intros s Hs. apply in_flat_map in Hs as (m & Hm & Hs).
     apply (proj2 (proj2 (l_all fuel))). apply incl_tl. apply (module_sites ast m s Hm Hs). }
